@@ -4,7 +4,8 @@ import FimVerif.Proofs.Lemmas.C13Rekey
 # C13 — partitioning an aggregate model yields sound per-delegation models
 
 Model: `FimVerif.Arm` (`genAdm`, `generateAdmsS`, `rekey`), configuration `genCfg` regenerated from
-`generate_adms` / `get_first_and_second_neighbor` on every run. All theorems quantify over every
+`generate_adms` / `get_first_and_second_neighbor` on every run (gen/armcfg.py: behavioural probing). `partition_sound`
+is the whole property as one statement about the run on the store; the theorems before it are its clauses. All theorems quantify over every
 graph `g`, delegation id `d` and (where it appears) every configuration; the ones that mention class
 and relation names are instantiated at the extracted configuration and re-checked against it.
 
@@ -108,12 +109,14 @@ theorem stitch_is_property (n : Node) : n.isStitch genCfg = (n.props.lookup "Sti
 /-! ## closure (at the extracted configuration) -/
 
 private theorem link_trace : (⟨"connects", "Link", "connects", "ConnectionPoint"⟩ : Trace) ∈ genCfg.linkTraces := by decide
-private theorem link_trace_only : genCfg.linkTraces = [⟨"connects", "Link", "connects", "ConnectionPoint"⟩] := by decide
 private theorem owner_trace_nn : (⟨"connects", "NetworkService", "has", "NetworkNode"⟩ : Trace) ∈ genCfg.ownerTraces := by decide
 private theorem owner_trace_comp : (⟨"connects", "NetworkService", "has", "Component"⟩ : Trace) ∈ genCfg.ownerTraces := by decide
 private theorem cp_class : genCfg.cpClass = "ConnectionPoint" := by decide
 private theorem link_not_cp : ∀ t ∈ genCfg.linkTraces, t.l1 ≠ genCfg.cpClass := by decide
 private theorem owner_not_cp : ∀ t ∈ genCfg.ownerTraces, t.l1 ≠ genCfg.cpClass ∧ t.l2 ≠ genCfg.cpClass := by decide
+/-- the link traces are repeated until no new interface turns up (the repaired `generate_adms`; re-checked against the
+code on every run: gen/armcfg.py fits the number of passes to the partitions the code produces) -/
+private theorem link_fixpoint : genCfg.linkRounds = none := by decide
 
 /-- the definite members of the partition for `d`: holders of `d` and stitch nodes -/
 def definite (g : G) (d x : String) : Prop := x ∈ keep0 genCfg g d
@@ -142,26 +145,76 @@ theorem closure_service_owner (g : G) (d c S o : String)
   exact ⟨mem_genAdm_ids.2 ⟨hasCls_mem_ids hS, hkeep.1⟩,
     mem_genAdm_ids.2 ⟨by rcases ho with ho | ho <;> exact hasCls_mem_ids ho, hkeep.2⟩⟩
 
-/-- **closure, link and peer, definite interfaces**: an interface that is delegated to `d` or is a stitch node
-keeps each of its links and every other end of that link. -/
+/-- **closure, link and peer — the full statement**: EVERY kept interface (delegated to `d`, a stitch node, or pulled
+in as the far end of a kept link at any distance) keeps each of its links and every other end of that link.
+Holds for the repaired code, which repeats the link trace until no new interface turns up
+(/repo `fix:` commit, known_findings/C13.json `C13:closure:peer-interface-other-link`). -/
 theorem closure_link_peer (g : G) (d c L p : String)
-    (hc : definite g d c) (hcp : g.hasCls c "ConnectionPoint" = true)
+    (hc : c ∈ (genAdm genCfg g d).ids) (hcp : g.hasCls c "ConnectionPoint" = true)
     (h1 : g.adj c L "connects") (hL : g.hasCls L "Link" = true)
     (h2 : g.adj L p "connects") (hp : g.hasCls p "ConnectionPoint" = true) (hpc : p ≠ c)
     (hsimple : ∀ r, g.adj L p r → r = "connects") :
     L ∈ (genAdm genCfg g d).ids ∧ p ∈ (genAdm genCfg g d).ids := by
   have hpL : p ≠ L := by rintro rfl; exact absurd (hasCls_unique hp hL) (by decide)
-  have := closure_link (t := ⟨"connects", "Link", "connects", "ConnectionPoint"⟩) hc (by rw [cp_class]; exact hcp)
-    link_trace h1 hL h2 hp hpc hpL hsimple
-  exact ⟨mem_genAdm_ids.2 ⟨hasCls_mem_ids hL, this.1⟩, mem_genAdm_ids.2 ⟨hasCls_mem_ids hp, this.2.1⟩⟩
+  have := closure_link_any (t := ⟨"connects", "Link", "connects", "ConnectionPoint"⟩) link_fixpoint link_not_cp owner_not_cp
+    (mem_genAdm_ids.1 hc).2 (by rw [cp_class]; exact hcp) link_trace h1 hL h2 hp hpc hpL hsimple
+  exact ⟨mem_genAdm_ids.2 ⟨hasCls_mem_ids hL, this.1⟩, mem_genAdm_ids.2 ⟨hasCls_mem_ids hp, this.2⟩⟩
 
-/- FULL STATEMENT (does not hold for the code as it is — known finding `C13:closure:peer-interface-other-link`):
-     ∀ kept interface c (definite or not), link L of c, other end p of L:  L and p are kept.
-   It fails for an interface that is kept only as the far end of a definite interface's link and has a second
-   link: links are traced for one round. `closure_peer_counterexample` is the witness, `closure_peer_partial`
-   the strongest guarded form: it holds for every kept interface with a single link. -/
+/-- the interfaces of a partition are closed under "other end of one of my links": the far end found by a link trace
+from a kept interface is itself an interface whose links, service and owner are traced -/
+theorem kept_interfaces_closed (g : G) (d c c' : String) (hc : c ∈ keepCps2 genCfg g d) (h : LinkNext genCfg g c c') :
+    c' ∈ keepCps2 genCfg g d :=
+  reach_keepCps2 link_fixpoint hc (.step (.refl c) h)
 
-/-- witness: `p` is kept in the partition of `d2` as the far end of `f1i`'s link, its other link `l2` is not -/
+/-- **what exactly is in a partition** (any configuration whose link traces are repeated to a fixed point): the node
+`x` is in the partition for `d` iff it is delegated to `d` or a stitch node, or it is the first or second element of a
+link-trace or owner-trace pair found from an interface that is reached, link by link, from a delegated/stitch
+interface. Nothing else is kept and nothing of this is missing. -/
+theorem partition_exact (cfg : Cfg) (hr : cfg.linkRounds = none) (g : G) (d x : String) :
+    x ∈ (genAdm cfg g d).ids ↔
+      x ∈ keep0 cfg g d ∨
+      ∃ c0 ∈ keepCps cfg g d, ∃ c, LinkReach cfg g c0 c ∧
+        ∃ t ∈ cfg.linkTraces ++ cfg.ownerTraces, ∃ p ∈ firstSecond cfg.dropsK g c t, x = p.1 ∨ x = p.2 := by
+  constructor
+  · intro hx
+    have hk := (mem_genAdm_ids.1 hx).2
+    unfold keepSet at hk
+    rcases List.mem_append.1 hk with hk | hk
+    · rcases List.mem_append.1 hk with hk | hk
+      · exact Or.inl hk
+      · rcases mem_pairIds.1 hk with ⟨p, hp, hxp⟩
+        rcases linkPairs_sound hp with ⟨c, hc, t, ht, hfs⟩
+        rcases keepCps2_reach hc with ⟨c0, hc0, hreach⟩
+        exact Or.inr ⟨c0, hc0, c, hreach, t, List.mem_append.2 (Or.inl ht), p, hfs, hxp⟩
+    · rcases mem_pairIds.1 hk with ⟨p, hp, hxp⟩
+      rcases mem_ownerPairs.1 hp with ⟨c, hc, t, ht, hfs⟩
+      rcases keepCps2_reach hc with ⟨c0, hc0, hreach⟩
+      exact Or.inr ⟨c0, hc0, c, hreach, t, List.mem_append.2 (Or.inr ht), p, hfs, hxp⟩
+  · intro h
+    have hk : x ∈ keepSet cfg g d := by
+      rcases h with h | ⟨c0, hc0, c, hreach, t, ht, p, hfs, hxp⟩
+      · exact keep0_sub_keepSet h
+      · have hc := reach_keepCps2 hr (keepCps_sub_keepCps2 hc0) hreach
+        rcases List.mem_append.1 ht with ht | ht
+        · have := linkPairs_sub_keepSet (linkPairs_of_keepCps2 hr hc ht hfs)
+          rcases hxp with rfl | rfl
+          · exact this.1
+          · exact this.2
+        · have := ownerPairs_sub_keepSet (mem_ownerPairs.2 ⟨c, hc, t, ht, hfs⟩)
+          rcases hxp with rfl | rfl
+          · exact this.1
+          · exact this.2
+    exact mem_genAdm_ids.2 ⟨keepSet_sub_ids hk, hk⟩
+
+/-- the extracted configuration is one of those -/
+theorem partition_exact_extracted (g : G) (d x : String) :
+    x ∈ (genAdm genCfg g d).ids ↔
+      x ∈ keep0 genCfg g d ∨
+      ∃ c0 ∈ keepCps genCfg g d, ∃ c, LinkReach genCfg g c0 c ∧
+        ∃ t ∈ genCfg.linkTraces ++ genCfg.ownerTraces, ∃ p ∈ firstSecond genCfg.dropsK g c t, x = p.1 ∨ x = p.2 :=
+  partition_exact genCfg link_fixpoint g d x
+
+/-- witness graph: `p` is in the partition of `d2` only as the far end of `f1i`'s link `l1`, and has a second link `l2` -/
 def cexG : G :=
   { nodes := [⟨"f1i", "ConnectionPoint", [], .absent, .dels [("d2", "e")]⟩, ⟨"l1", "Link", [], .absent, .absent⟩,
               ⟨"p", "ConnectionPoint", [], .absent, .dels [("d1", "e")]⟩, ⟨"l2", "Link", [], .absent, .absent⟩,
@@ -173,37 +226,38 @@ def cexG : G :=
 example : (⟨"f1i", "ConnectionPoint", [], .absent, .dels [("d2", "e")]⟩ : Node) ∈ cexG.nodes ∧
     (⟨"f1i", "ConnectionPoint", [], .absent, .dels [("d2", "e")]⟩ : Node).holds "d2" = true := by decide
 
-theorem closure_peer_counterexample :
-    "p" ∈ (genAdm genCfg cexG "d2").ids ∧ cexG.hasCls "p" "ConnectionPoint" = true ∧
+/-- the configuration of the code BEFORE the repair: one pass of the link trace -/
+def onePassCfg : Cfg := { genCfg with linkRounds := some 1 }
+
+/-- **why the repair was needed** (the defect `C13:closure:peer-interface-other-link`, kept as a regression witness):
+with a single pass of the link trace the interface `p` is in the partition of `d2`, its link `l2` to `f2i` is not —
+and with the trace repeated to a fixed point (the extracted configuration) it is. The oracle replays this graph on the
+implementation on every run (corpus/C13/peer_interface_other_link.json). -/
+theorem closure_one_pass_counterexample :
+    "p" ∈ (genAdm onePassCfg cexG "d2").ids ∧ cexG.hasCls "p" "ConnectionPoint" = true ∧
     cexG.adj "p" "l2" "connects" ∧ cexG.hasCls "l2" "Link" = true ∧
     cexG.adj "l2" "f2i" "connects" ∧ cexG.hasCls "f2i" "ConnectionPoint" = true ∧
-    "l2" ∉ (genAdm genCfg cexG "d2").ids := by
-  refine ⟨by decide, by decide, ?_, by decide, ?_, by decide, by decide⟩ <;> (unfold G.adj; decide)
+    "l2" ∉ (genAdm onePassCfg cexG "d2").ids ∧
+    "l2" ∈ (genAdm genCfg cexG "d2").ids ∧ "f2i" ∈ (genAdm genCfg cexG "d2").ids := by
+  refine ⟨by decide, by decide, ?_, by decide, ?_, by decide, by decide, by decide, by decide⟩ <;> (unfold G.adj; decide)
 
-/-- **closure, link and peer, any kept interface with a single link** (guarded form): if the kept interface `c`
-has no neighbour of class Link other than `L`, then `L` and every other end of `L` are kept. -/
-theorem closure_peer_partial (g : G) (d c L p : String)
-    (hc : c ∈ (genAdm genCfg g d).ids) (hcp : g.hasCls c "ConnectionPoint" = true)
-    (hone : ∀ L' r, g.adj c L' r → g.hasCls L' "Link" = true → L' = L)
-    (h1 : g.adj c L "connects") (hL : g.hasCls L "Link" = true)
-    (h2 : g.adj L p "connects") (hp : g.hasCls p "ConnectionPoint" = true) (hpc : p ≠ c)
-    (hsimple : ∀ r, g.adj L p r → r = "connects") :
-    L ∈ (genAdm genCfg g d).ids ∧ p ∈ (genAdm genCfg g d).ids := by
-  have hpL : p ≠ L := by rintro rfl; exact absurd (hasCls_unique hp hL) (by decide)
-  have := closure_peer_single_link (t := ⟨"connects", "Link", "connects", "ConnectionPoint"⟩) link_trace_only
-    (by decide) owner_not_cp hone (mem_genAdm_ids.1 hc).2 (by rw [cp_class]; exact hcp) h1 hL h2 hp hpc hpL hsimple
-  exact ⟨mem_genAdm_ids.2 ⟨hasCls_mem_ids hL, this.1⟩, mem_genAdm_ids.2 ⟨hasCls_mem_ids hp, this.2⟩⟩
-
-/-- non-vacuity of the closure hypotheses: in `cexG`, `f1i` is definite for `d2` and its link and peer are kept -/
-example : definite cexG "d2" "f1i" ∧ cexG.adj "f1i" "l1" "connects" ∧ cexG.adj "l1" "p" "connects" ∧
-    (∀ r, cexG.adj "l1" "p" r → r = "connects") := by
-  refine ⟨by unfold definite; decide, by unfold G.adj; decide, by unfold G.adj; decide, ?_⟩
+/-- non-vacuity of the closure hypotheses: in `cexG`, `p` is a kept interface of the partition for `d2` that is NOT
+definite, and `l2`/`f2i` are a link of it and that link's other end -/
+example : "p" ∈ (genAdm genCfg cexG "d2").ids ∧ ¬ definite cexG "d2" "p" ∧ cexG.adj "p" "l2" "connects" ∧
+    cexG.adj "l2" "f2i" "connects" ∧ (∀ r, cexG.adj "l2" "f2i" r → r = "connects") := by
+  refine ⟨by decide, by unfold definite; decide, by unfold G.adj; decide, by unfold G.adj; decide, ?_⟩
   intro r hr
   unfold G.adj at hr
-  have : cexG.nbrs "l1" = [("f1i", "connects"), ("p", "connects")] := by decide
+  have : cexG.nbrs "l2" = [("p", "connects"), ("f2i", "connects")] := by decide
   rw [this] at hr
   simp at hr
   exact hr
+
+/-- non-vacuity of `kept_interfaces_closed` / `partition_exact`: `f1i` is a definite interface of `cexG` for `d2`, `p` is
+its link-trace successor and `f2i` is `p`'s -/
+example : "f1i" ∈ keepCps genCfg cexG "d2" ∧ LinkNext genCfg cexG "f1i" "p" ∧ LinkNext genCfg cexG "p" "f2i" := by
+  refine ⟨by decide, ⟨⟨"connects", "Link", "connects", "ConnectionPoint"⟩, by decide, "l1", by decide⟩,
+    ⟨⟨"connects", "Link", "connects", "ConnectionPoint"⟩, by decide, "l2", by decide⟩⟩
 
 /-! ## the ARM is untouched; the store run computes `genAdm` -/
 
@@ -253,6 +307,52 @@ example : cexG.ids.Nodup ∧ (∀ e ∈ cexG.edges, e.a ∈ cexG.ids ∧ e.b ∈
     ((delIds cexG).map (fun d => "adm-" ++ d)).Nodup ∧ (∀ d ∈ delIds cexG, "adm-" ++ d ≠ "arm") := by
   refine ⟨by decide, by decide, by decide, by decide, by decide⟩
 
+/-- **the property, as one statement about the run on the store** (clauses of C13 in the order of its text).
+For every store `s` holding a well-formed ARM `g0` under `arm` (unique node ids, edges between its own nodes) and every
+assignment `gid` of fresh, pairwise distinct graph ids: `generate_adms` returns one graph id per delegation id present,
+and the graph `m` stored under the id generated for `d`
+ 1. contains every node delegated to `d`, carrying exactly its own entries for `d` (`Node.rewrite`, see `only_own_entries`);
+ 2. has no entry of another delegation id anywhere;
+ 3. is a sub-model: nodes are ARM nodes with the same id, class and other properties; edges are ARM edges; every ARM
+    edge between two kept nodes is kept;
+ 4. keeps, for every kept interface, each link with every other end, and the owning service with its owner;
+ 5. contains every stitch node;
+and 6. the ARM (and every other graph of the store whose id was not generated) is unchanged. -/
+theorem partition_sound (s s' : Store) (arm : String) (gid : String → String) (g0 : G)
+    (r : List (String × String)) (hs : s.get arm = some g0)
+    (hfresh : ∀ d ∈ delIds g0, gid d ≠ arm) (hinj : ((delIds g0).map gid).Nodup)
+    (hnd : g0.ids.Nodup) (hends : ∀ e ∈ g0.edges, e.a ∈ g0.ids ∧ e.b ∈ g0.ids)
+    (hrun : generateAdmsS genCfg s arm gid = some (r, s')) :
+    r = (delIds g0).map (fun d => (d, gid d)) ∧
+    (∀ d, d ∈ delIds g0 ↔ ∃ n ∈ g0.nodes, n.holds d = true) ∧
+    (∀ d ∈ delIds g0, ∃ m, s'.get (gid d) = some m ∧
+      (∀ n ∈ g0.nodes, n.holds d = true → n.rewrite d ∈ m.nodes) ∧
+      (∀ x ∈ m.nodes, ∀ k ∈ x.ldel.keys ++ x.cdel.keys, k = d) ∧
+      (∀ x ∈ m.nodes, ∃ n ∈ g0.nodes, x.id = n.id ∧ x.cls = n.cls ∧ x.props = n.props) ∧
+      (m.ids.Nodup ∧ ∀ e ∈ m.edges, e ∈ g0.edges) ∧
+      (∀ e ∈ g0.edges, e.a ∈ m.ids → e.b ∈ m.ids → e ∈ m.edges) ∧
+      (∀ c L p, c ∈ m.ids → g0.hasCls c "ConnectionPoint" = true → g0.adj c L "connects" → g0.hasCls L "Link" = true →
+          g0.adj L p "connects" → g0.hasCls p "ConnectionPoint" = true → p ≠ c → (∀ r, g0.adj L p r → r = "connects") →
+          L ∈ m.ids ∧ p ∈ m.ids) ∧
+      (∀ c S o, c ∈ m.ids → g0.hasCls c "ConnectionPoint" = true → g0.adj c S "connects" → g0.hasCls S "NetworkService" = true →
+          g0.adj S o "has" → (g0.hasCls o "NetworkNode" = true ∨ g0.hasCls o "Component" = true) →
+          (∀ r, g0.adj S o r → r = "has") → S ∈ m.ids ∧ o ∈ m.ids) ∧
+      (∀ n ∈ g0.nodes, n.isStitch genCfg = true → n.id ∈ m.ids)) ∧
+    s'.get arm = some g0 ∧ (∀ y, (∀ d ∈ delIds g0, gid d ≠ y) → s'.get y = s.get y) := by
+  have hrun' := store_run_is_genAdm genCfg s s' arm gid g0 r hs hfresh hinj hnd hends hrun
+  have hunt := arm_untouched genCfg s s' arm gid g0 r hs hfresh hrun
+  refine ⟨hrun'.1, fun d => mem_delIds, ?_, hunt.1, hunt.2⟩
+  intro d hd
+  refine ⟨genAdm genCfg g0 d, hrun'.2 d hd, ?_, ?_, ?_, ?_, ?_, ?_, ?_, ?_⟩
+  · exact fun n hn hh => (holders_kept genCfg g0 d n hn hh).1
+  · exact fun x hx k hk => no_foreign_entries genCfg g0 d x hx k hk
+  · exact (sub_model genCfg g0 d).1
+  · exact ⟨(sub_model genCfg g0 d).2.2.1 hnd, (sub_model genCfg g0 d).2.2.2.1⟩
+  · exact (sub_model genCfg g0 d).2.2.2.2.1
+  · exact fun c L p hc hcp h1 hL h2 hp hpc hsimple => closure_link_peer g0 d c L p hc hcp h1 hL h2 hp hpc hsimple
+  · exact fun c S o hc hcp h1 hS h2 ho hsimple => closure_service_owner g0 d c S o hc hcp h1 hS h2 ho hsimple
+  · exact fun n hn hst => (stitch_everywhere genCfg g0 d n hn hst).2
+
 /-! ## re-keying -/
 
 /-- **re-keying changes only the key** (whatever the outcome, raised or not): node ids, classes, other
@@ -275,7 +375,7 @@ theorem rekey_partition_ok (cfg : Cfg) (g : G) (d x : String) : (rekey (genAdm c
   exact Node.rekey_rewrite_isSome n d x
 
 example : (rekey (genAdm genCfg cexG "d2") "G").2.nodes.map (·.cdel) =
-    [.dels [("G", "e")], .absent, .absent] := by decide
+    [.dels [("G", "e")], .absent, .absent, .absent, .absent] := by decide
 
 /-- **re-keying composes** (a → b): after a re-keying to `a` that did not raise, re-keying the result to `b` is
 exactly re-keying the original to `b` — in particular nothing but the key can have been lost on the way -/
@@ -333,12 +433,15 @@ theorem rekey_there_and_back (g : G) (a b : String) (h : (rekey g a).1 = false) 
 example : ∀ n ∈ (rekey (genAdm genCfg cexG "d2") "G").2.nodes, KeyedBy "G" n.ldel ∧ KeyedBy "G" n.cdel := by
   have : (rekey (genAdm genCfg cexG "d2") "G").2.nodes =
       [⟨"f1i", "ConnectionPoint", [], .absent, .dels [("G", "e")]⟩, ⟨"l1", "Link", [], .absent, .absent⟩,
-       ⟨"p", "ConnectionPoint", [], .absent, .absent⟩] := by decide
+       ⟨"p", "ConnectionPoint", [], .absent, .absent⟩, ⟨"l2", "Link", [], .absent, .absent⟩,
+       ⟨"f2i", "ConnectionPoint", [], .absent, .absent⟩] := by decide
   rw [this]
   intro n hn
   simp only [List.mem_cons, List.not_mem_nil, or_false] at hn
-  rcases hn with rfl | rfl | rfl
+  rcases hn with rfl | rfl | rfl | rfl | rfl
   · exact ⟨Or.inl rfl, Or.inr ⟨"e", rfl⟩⟩
+  · exact ⟨Or.inl rfl, Or.inl rfl⟩
+  · exact ⟨Or.inl rfl, Or.inl rfl⟩
   · exact ⟨Or.inl rfl, Or.inl rfl⟩
   · exact ⟨Or.inl rfl, Or.inl rfl⟩
 
